@@ -336,7 +336,7 @@ theorem rt_appendDateTime_some (c : Choices) (d : DateTime) (h : DateTimeOK d) :
   exact RT.map (fun _ => some d) (rt_consume (b := 32) (t := .sp) rfl anyRest)
 
 def AppendOK (m : BStr) (fl : List BStr) (dt : Option DateTime) (lit : BStr) : Prop :=
-  MboxOK m ∧ (∀ x ∈ fl, FlagOK x) ∧ (∀ d, dt = some d → DateTimeOK d) ∧ lit ≠ [] ∧ StrOK lit
+  MboxOK m ∧ (∀ x ∈ fl, FlagOK x) ∧ (∀ d, dt = some d → DateTimeOK d) ∧ StrOK lit
 
 theorem rt_parseAppend (c : Choices) (m : BStr) (fl : List BStr) (dt : Option DateTime) (lit : BStr)
     (h : AppendOK m fl dt lit) (fuel : Nat) (hf : m.length + lit.length + 2 < fuel) (hff : ListFuel fl fuel) :
@@ -344,12 +344,12 @@ theorem rt_parseAppend (c : Choices) (m : BStr) (fl : List BStr) (dt : Option Da
       (32 :: (printMailbox c.l.r m ++ (32 ::
         (printAppendFlags c.r.l fl ++ (printAppendDate c.r.r.l dt ++ printLiteral lit)))))
       (.append m fl dt lit) anyRest := by
-  obtain ⟨hm, hfl, hdt, hne, hlit⟩ := h
+  obtain ⟨hm, hfl, hdt, hlit⟩ := h
   unfold parseAppend
   refine RT.bind (w1 := [32]) (rt_consume rfl anyRest) ?_ (fun _ _ => trivial)
   refine RT.bind (rt_parseMailbox _ m hm fuel (by omega)) ?_ (fun r _ => nextNot_astring_sp _)
   refine RT.bind (w1 := [32]) (rt_consume rfl anyRest) ?_ (fun _ _ => trivial)
-  have hlitRT := rt_parseLiteral lit hne hlit fuel (by have := natDigits_length_le lit.length; omega)
+  have hlitRT := rt_parseLiteral lit hlit fuel (by have := natDigits_length_le lit.length; omega)
   -- the date-time and literal part
   have htail : RT (appendDateTime >>= fun dt' => parseLiteral fuel >>= fun l => pure (Cmd.append m fl dt' l))
       (printAppendDate c.r.r.l dt ++ printLiteral lit)
